@@ -30,6 +30,8 @@ def plan(tier):
             for (colour, C) in ((False, 1), (False, 2), (True, 3)):
                 for mb in MAGB:
                     items.append({'kind': 'layer', 'layer': 1, 'biort': b, 'qshift': None, 'h': h, 'w': w, 'colour': colour, 'C': C, 'magbias': mb})
+                if (h, w) in ((4, 6), (8, 8), (6, 4)):
+                    items.append({'kind': 'layer', 'layer': 1, 'biort': b, 'qshift': None, 'h': h, 'w': w, 'colour': colour, 'C': C, 'magbias': 1e-2, 'mode': 'zero'})
     p2 = [('near_sym_a', 'qshift_a'), ('near_sym_b_bp', 'qshift_b_bp'), ('antonini', 'qshift_c')] if q else \
         [('near_sym_a', 'qshift_a'), ('near_sym_b_bp', 'qshift_b_bp'), ('antonini', 'qshift_c'), ('legall', 'qshift_06'), ('near_sym_b', 'qshift_d'), ('near_sym_a', 'qshift_b')]
     s2 = [(8, 8), (8, 16)] if q else [(8, 8), (8, 16), (16, 8), (16, 16)]
@@ -49,7 +51,7 @@ def bounds(tier):
 
 
 def required_regimes(tier):
-    return {'layer:1', 'layer:2', 'bp', 'colour', 'C:2', 'base:zero', 'base:const', 'base:sparse', 'base:dense', 'size:h!=w', 'smoothmag', 'smoothmag:only_y'}
+    return {'layer:1', 'layer:2', 'bp', 'colour', 'C:2', 'base:zero', 'base:const', 'base:sparse', 'base:dense', 'size:h!=w', 'smoothmag', 'smoothmag:only_y', 'mode:zero'}
 
 
 def _bases(C, H, W):
@@ -115,8 +117,8 @@ def run(item):
     from pytorch_wavelets import ScatLayer, ScatLayerj2
     layer, b, qs, H, W, colour, C, mb = (item[k] for k in ('layer', 'biort', 'qshift', 'h', 'w', 'colour', 'C', 'magbias'))
     tags = ['layer:%d' % layer] + (['bp'] if b.endswith('_bp') else []) + (['colour'] if colour else []) + (['C:2'] if C == 2 else []) + \
-        (['size:h!=w'] if H != W else [])
-    mod = ScatLayer(biort=b, magbias=mb, combine_colour=colour) if layer == 1 else ScatLayerj2(biort=b, qshift=qs, magbias=mb, combine_colour=colour)
+        (['size:h!=w'] if H != W else []) + (['mode:zero'] if item.get('mode') == 'zero' else [])
+    mod = ScatLayer(biort=b, magbias=mb, combine_colour=colour, mode=item.get('mode', 'symmetric')) if layer == 1 else ScatLayerj2(biort=b, qshift=qs, magbias=mb, combine_colour=colour)
     P = C * H * W
     res.state(common.sha(item))
 
